@@ -157,6 +157,12 @@ func (s *Sched) Drain() {
 	for _, l := range s.links {
 		l.ReleaseAll()
 	}
+	s.ReleaseGates()
+}
+
+// ReleaseGates opens every gate (handlers parked in one go on) but leaves the links as they are: writes that are
+// parked inside the transport stay parked.
+func (s *Sched) ReleaseGates() {
 	s.mu.Lock()
 	for _, g := range s.gates {
 		if !g.released {
